@@ -931,3 +931,47 @@ impl<'a, X: Payload> fmt::Debug for ViaAlt<'a, X> {
         fmt_alt(self.0, f)
     }
 }
+
+// ------------------------------------------------------------------------------------------------
+// marker argument types for the bound probes (C11): `Yes` implements every trait educe can derive
+// for a field, `No<Trait>` lacks exactly that trait (and the traits that have it as a supertrait)
+
+macro_rules! marker {
+    ($name:ident: $($tr:ident)*) => {
+        pub struct $name;
+        impl Payload for $name {
+            fn a(&self) -> i8 { 0 }
+            fn fp(&self, out: &mut String) { out.push_str(stringify!($name)); }
+            fn clone_alt(&self) -> Self { $name }
+            fn mkp(_: u8, _: u8, _: i8) -> Self { $name }
+        }
+        $( marker!(@impl $name $tr); )*
+    };
+    (@impl $name:ident Debug) => { impl fmt::Debug for $name { fn fmt(&self, f: &mut fmt::Formatter<'_>) -> fmt::Result { f.write_str(stringify!($name)) } } };
+    (@impl $name:ident Clone) => { impl Clone for $name { fn clone(&self) -> Self { $name } } };
+    (@impl $name:ident Copy) => { impl Copy for $name {} };
+    (@impl $name:ident PartialEq) => { impl PartialEq for $name { fn eq(&self, _: &Self) -> bool { true } } };
+    (@impl $name:ident Eq) => { impl Eq for $name {} };
+    (@impl $name:ident PartialOrd) => { impl PartialOrd for $name { fn partial_cmp(&self, _: &Self) -> Option<Ordering> { Some(Ordering::Equal) } } };
+    (@impl $name:ident Ord) => { impl Ord for $name { fn cmp(&self, _: &Self) -> Ordering { Ordering::Equal } } };
+    (@impl $name:ident Hash) => { impl Hash for $name { fn hash<H: Hasher>(&self, _: &mut H) {} } };
+    (@impl $name:ident Default) => { impl Default for $name { fn default() -> Self { $name } } };
+    (@impl $name:ident Into) => {
+        impl From<$name> for u8 { fn from(_: $name) -> u8 { 0 } }
+        impl From<$name> for u16 { fn from(_: $name) -> u16 { 0 } }
+        impl From<$name> for W { fn from(_: $name) -> W { W(0) } }
+        impl From<$name> for T { fn from(_: $name) -> T { T::mk(0, 0, 0) } }
+    };
+}
+
+marker!(Yes: Debug Clone Copy PartialEq Eq PartialOrd Ord Hash Default Into);
+marker!(NoDebug: Clone Copy PartialEq Eq PartialOrd Ord Hash Default Into);
+marker!(NoClone: Debug PartialEq Eq PartialOrd Ord Hash Default Into);
+marker!(NoCopy: Debug Clone PartialEq Eq PartialOrd Ord Hash Default Into);
+marker!(NoPartialEq: Debug Clone Copy Hash Default Into);
+marker!(NoEq: Debug Clone Copy PartialEq PartialOrd Hash Default Into);
+marker!(NoPartialOrd: Debug Clone Copy PartialEq Eq Hash Default Into);
+marker!(NoOrd: Debug Clone Copy PartialEq Eq PartialOrd Hash Default Into);
+marker!(NoHash: Debug Clone Copy PartialEq Eq PartialOrd Ord Default Into);
+marker!(NoDefault: Debug Clone Copy PartialEq Eq PartialOrd Ord Hash Into);
+marker!(NoInto: Debug Clone Copy PartialEq Eq PartialOrd Ord Hash Default);
